@@ -270,15 +270,17 @@ def check_c16(tier):
     V = Verdict('C16', tier)
     d = 1 if tier == 'quick' else 2
     OL = O_T | og('LOG')
-    specs = [S('T1', 2, M_T | mf('COMPOSITE'), og('CORE', 'LOG')), S('GP1', 1, M_P0 | mf('COMPOSITE'), O_P), S('T1', 2 if tier == 'quick' else 3, M_T, OL | og('REPLAY')), S('G1', d, M_T, OL), S('G2', d, M_T, OL), S('GP1', d, M_P0 | mf('GUARD_REQ'), O_P | og('REACT')), S('GP2', 1, M_P0, O_P), S('T2', 1, M_TP, O_TALL)]
+    specs = [S('T1', 2, M_T | mf('COMPOSITE'), og('CORE', 'LOG')), S('GP1', 1, M_P0 | mf('COMPOSITE'), O_P), S('T1', 2 if tier == 'quick' else 3, M_T, OL | og('REPLAY')), S('G1', d, M_T, OL), S('G2', d, M_T, OL), S('GP1', d, M_P0 | mf('GUARD_REQ'), O_P | og('REACT')), S('GP2', 1, M_P0, O_P), S('T2', 1, M_TP, O_TALL),
+             S('GI1', 2, M_T | mf('INJ_DECIDE'), OL), S('GI2', d, M_T | mf('INJ_DECIDE'), OL), S('GI1', 1, M_T | mf('INJ_DECIDE', 'COMPOSITE'), og('CORE', 'LOG')), S('GQ1', 1, M_P0 | mf('PAYLOAD'), O_P | og('PAYLOAD')), S('GQ2', 0, M_P0 | mf('PAYLOAD'), O_P | og('PAYLOAD'))]
     vc.run_specs(V, specs, tier, budget=100 if tier == 'quick' else 600)
     # differential: compiled out / compiled in (attached, detached, attached later) / verbose must be behaviourally identical
-    for fam, names, mfv, ogv in (('plain', ('L0', 'L1', 'L2'), M_T, O_T), ('bare', ('G0', 'G1', 'G2'), M_T, O_T), ('plans', ('GP0', 'GP1', 'GP2'), M_P0, og('CORE', 'PLAN', 'REPORT'))):
+    for fam, names, mfv, ogv, nflag in (('plain', ('L0', 'L1', 'L2'), M_T, O_T, '--neutral'), ('bare', ('G0', 'G1', 'G2'), M_T, O_T, '--neutral'), ('plans', ('GP0', 'GP1', 'GP2'), M_P0, og('CORE', 'PLAN', 'REPORT'), '--neutral'),
+                                       ('injections', ('GI0', 'GI1', 'GI2'), M_T | mf('INJ_DECIDE'), O_T, '--neutral'), ('payload-plans', ('GQ0', 'GQ1', 'GQ2'), M_P0 | mf('PAYLOAD'), og('CORE', 'PLAN', 'REPORT', 'PAYLOAD'), '--neutral=5')):
         digs = {}
         for h in header_variants():
             for nm in names:
                 b = build('fsmx.cpp', CONFIGS[nm], header=h)
-                run = run_fsmx(b, nm + '/neutral', ['C16'], d, mfv, ogv | og('LOG'), workers=1, flags=['--neutral'], deadline=200)
+                run = run_fsmx(b, nm + '/neutral', ['C16'], d, mfv, ogv | og('LOG'), workers=NCPU, flags=[nflag], deadline=200)
                 rs = dict(S(nm, d, mfv, ogv)); rs['header'] = h
                 V.add_fsmx(run, nm, CONFIGS[nm], rs)
                 if run['result']:
